@@ -62,6 +62,24 @@ fn hook_before(p: &Pending) -> Directive {
     Directive::Proceed
 }
 
+/// The arena is about to zero a range (plain memset, announced before it happens): one more crash point,
+/// between the atomic access that preceded the zeroing and the zeroing itself.
+fn hook_zeroed(addr: usize, len: usize) {
+    if std::thread::panicking() || BUDGET.with(|b| b.get()) >= 0 || !SNAP_ON.with(|s| s.get()) {
+        return;
+    }
+    let n = EVENT_NO.with(|e| e.get());
+    let (base, mlen) = MEM.with(|m| m.get());
+    let img = unsafe { std::slice::from_raw_parts(base as *const u8, mlen) }.to_vec();
+    let label = format!("before-zeroing#{}:Zeroing@[{},+{}):plain", n, addr.wrapping_sub(base), len);
+    SNAPS.with(|s| {
+        let mut s = s.borrow_mut();
+        if s.len() < 200 {
+            s.push((label, img));
+        }
+    });
+}
+
 fn access_class(p: &Pending) -> &'static str {
     match p.access {
         Access::Load => "load",
@@ -164,6 +182,7 @@ fn recover<A: VArena>(out: &mut Out, cfg: &Cfg, img: &[u8], live: &[LiveR], what
     let budget = 20_000i64;
     let sizes = [1u32, 8, 16, 24, 40, 64, 9, 100, 200, 33];
     let mut got: Vec<(u32, u32)> = vec![];
+    let (mut not_zero_reported, mut not_zero, mut zero_checks) = (false, None::<(u32, u32)>, 0u64);
     let mut failures = 0;
     let mut k = 0usize;
     let r = std::panic::catch_unwind(std::panic::AssertUnwindSafe(|| {
@@ -187,6 +206,14 @@ fn recover<A: VArena>(out: &mut Out, cfg: &Cfg, img: &[u8], live: &[LiveR], what
             match r {
                 Ok(mut h) => {
                     h.detach();
+                    if h.capacity() > 0 && !not_zero_reported {
+                        let m = &a.memory()[h.offset()..h.offset() + h.capacity()];
+                        zero_checks += 1;
+                        if m.iter().any(|b| *b != 0) {
+                            not_zero_reported = true;
+                            not_zero = Some((h.offset() as u32, h.capacity() as u32));
+                        }
+                    }
                     got.push((h.offset() as u32, h.capacity() as u32));
                     if k % 5 == 0 {
                         // give some back to keep the list busy
@@ -224,6 +251,11 @@ fn recover<A: VArena>(out: &mut Out, cfg: &Cfg, img: &[u8], live: &[LiveR], what
                 return;
             }
         }
+    }
+    out.add("c08_zero_checks_after_crash_recovery", zero_checks);
+    if let Some((o, n)) = not_zero {
+        // C08 (reopened file): judged by C08's own check, which runs a slice of this sweep
+        out.viol("C08", "not-zeroed-after-crash-recovery", detail(format!("alloc_bytes on the reopened crash image returned [{},+{}) with non-zero bytes", o, n)));
     }
     out.inc("c06_recovery_storms_completed");
     out.add("c06_recovery_allocations", got.len() as u64);
@@ -374,7 +406,10 @@ fn run_history<A: VArena>(out: &mut Out, seed: u64, index: u64, abort_point: Opt
             // validate the snapshot shortcut against a real process death (sampled)
             if A::FLAVOUR == Flavour::Sync && total > 1 && vrng.chance(1, 6) {
                 let e = vrng.usize(total - 1);
-                validate_with_abort(out, seed, index, opi, e, &snaps[e].1);
+                // the child dies in front of the atomic access with that number (zeroing points have no number of their own)
+                if let Some(ev) = snaps[e].0.strip_prefix("before#").and_then(|r| r.split(':').next()).and_then(|x| x.parse::<usize>().ok()) {
+                    validate_with_abort(out, seed, index, opi, ev, &snaps[e].1);
+                }
             }
         }
         if let Some(l) = new_live {
@@ -434,7 +469,7 @@ pub fn child_main(args: &Args) -> i32 {
     let mut out = Out::new();
     out.viol_cap = 30;
     crate::seq::install_panic_capture();
-    vhk::install(Some(hook_before), None, None);
+    vhk::install(Some(hook_before), None, Some(hook_zeroed));
     if let Some(t) = args.kv.get("tmp") {
         // abort-validation child: write into the parent's tmp dir
         std::env::set_var("VH_TMP_OVERRIDE", t);
